@@ -244,7 +244,10 @@ def run(tier: str) -> int:
     for name, srcs in base.repo_sources():
         progs.append((name, srcs, None))
     from . import c13
+    from .. import probes
 
+    for k, v in probes.access_probes() + probes.range_probes()[::6] + probes.call_matrix()[::9]:
+        progs.append((f"probe:{k}", v, None))
     progs.append(("multi:fixed", c13.FIXED_MULTI, None))
     progs.append(("multi:early_return", {"": HDR + "from library import mylib\n\ndef clamp(x):\n    if x > 9:\n        return 9\n    return x\n\ndb.Setting = mylib.clamp(d0.Setting)\ndb.Mode = mylib.clamp(d1.Setting)\ndb.On = clamp(d2.Setting)\ndb.Open = clamp(3)\n",
                                           "mylib": HDR + "\ndef clamp(x):\n    if x > 5:\n        return 5\n    if x < 0:\n        return 0\n    return x\n"}, "component"))
